@@ -25,8 +25,12 @@ LABEL_FLOORS = {'reversal-at-junction': 0.3, 'split': 0.3, 'reorder': 0.5, 'env-
 
 @st.composite
 def case_strategy(draw, big=False):
-    case = draw(gen.antenna(env_kinds=('free', 'ideal', 'ideal'), max_wires=4, max_seg=6 if not big else 10,
-                            nsrc=(0, 0), tapers=True, taper_prob=0.15, star=2, tag_styles=('auto',)))
+    if draw(st.integers(0, 6)) == 0:
+        # collinear wires of different radii on a dyadic lattice (bit-identical segment vectors across the junctions)
+        case = draw(gen.stepped_chain(env_kinds=('free', 'ideal'), nsrc=(0, 0), tag_styles=('auto',), min_seg=2, max_seg=6))
+    else:
+        case = draw(gen.antenna(env_kinds=('free', 'ideal', 'ideal'), max_wires=4, max_seg=6 if not big else 10,
+                                nsrc=(0, 0), tapers=True, taper_prob=0.15, star=2, tag_styles=('auto',)))
     topo, objs = gen.stand_in_topology(case)
     # sources on pulses that exist in every description: interior, grounded, or junctions of exactly two ends
     ok = []
